@@ -35,7 +35,7 @@ pub const C01_KINDS: &[&str] = &[
 	"sig-swapped",
 	"amount-changed-reproved",
 ];
-pub const C13_KINDS: &[&str] = &["immature-coinbase", "lock-height-future", "nrd-too-recent"];
+pub const C13_KINDS: &[&str] = &["immature-coinbase", "immature-with-mature-coinbase", "lock-height-future", "nrd-too-recent"];
 pub const C04_KINDS: &[&str] = &[
 	"hdr-height+1",
 	"hdr-height-1",
@@ -283,6 +283,26 @@ impl World {
 				}
 				let x = self.rng.pick(&cands).clone();
 				let tx = self.simple_spend(&x, None)?;
+				let b = self.block_from_txs(parent, &[tx], true)?;
+				Some(self.push_bad(parent, b, kind, false))
+			}
+			"immature-with-mature-coinbase" => {
+				// one transaction spending an immature coinbase together with a mature one: the decision
+				// must not depend on which of the two comes last in the (commitment-sorted) input list
+				let maturity = global::coinbase_maturity();
+				let parent = self.pick_parent(maturity + 2)?;
+				let height = self.blocks[parent].height + 1;
+				let ledger = self.blocks[parent].ledger.clone();
+				let young: Vec<OutInfo> = ledger.values().filter(|o| o.coinbase && o.height + maturity == height + 1).cloned().collect();
+				let old: Vec<OutInfo> = ledger.values().filter(|o| o.coinbase && o.height + maturity <= height).cloned().collect();
+				if young.is_empty() || old.is_empty() {
+					return None;
+				}
+				let x = self.rng.pick(&young).clone();
+				let y = self.rng.pick(&old).clone();
+				let fee = fee_of(2, 1);
+				let f = KernelFeatures::Plain { fee: FeeFields::new(0, fee).ok()? };
+				let (tx, _) = self.wallet.build_tx(&[x.clone(), y.clone()], &[x.value + y.value - fee], None, f);
 				let b = self.block_from_txs(parent, &[tx], true)?;
 				Some(self.push_bad(parent, b, kind, false))
 			}
